@@ -626,23 +626,27 @@ def simplify_boolean_expressions(source: str) -> str:
 
             continue
 
-        if isinstance(operator, ast.Eq):
-            yield node, ast.Constant(value=left == right, kind=None)
+        try:
+            if isinstance(operator, ast.Eq):
+                yield node, ast.Constant(value=left == right, kind=None)
 
-        elif isinstance(operator, ast.NotEq):
-            yield node, ast.Constant(value=left != right, kind=None)
+            elif isinstance(operator, ast.NotEq):
+                yield node, ast.Constant(value=left != right, kind=None)
 
-        elif isinstance(operator, ast.Gt):
-            yield node, ast.Constant(value=left > right, kind=None)
+            elif isinstance(operator, ast.Gt):
+                yield node, ast.Constant(value=left > right, kind=None)
 
-        elif isinstance(operator, ast.Lt):
-            yield node, ast.Constant(value=left < right, kind=None)
+            elif isinstance(operator, ast.Lt):
+                yield node, ast.Constant(value=left < right, kind=None)
 
-        elif isinstance(operator, ast.GtE):
-            yield node, ast.Constant(value=left >= right, kind=None)
+            elif isinstance(operator, ast.GtE):
+                yield node, ast.Constant(value=left >= right, kind=None)
 
-        elif isinstance(operator, ast.LtE):
-            yield node, ast.Constant(value=left <= right, kind=None)
+            elif isinstance(operator, ast.LtE):
+                yield node, ast.Constant(value=left <= right, kind=None)
+
+        except TypeError:  # E.g. "a" < 1. The program will raise at runtime, leave it as it is.
+            continue
 
 
 @processing.fix
